@@ -61,10 +61,25 @@ def coqc(path, timeout=600):
         return False, (e.stdout or b"").decode() if isinstance(e.stdout, bytes) else (e.stdout or ""), "TIMEOUT after %ds" % timeout, time.time() - t0
 
 
+def gen_dir():
+    """per-process directory for generated files (two runs of the same check must not overwrite each other's case files);
+    removed at exit unless VERIF_KEEP_GEN is set"""
+    global _GEN_RUN
+    if _GEN_RUN is None:
+        import atexit, shutil
+        _GEN_RUN = os.path.join(GEN, "p%d" % os.getpid())
+        os.makedirs(_GEN_RUN, exist_ok=True)
+        if not os.environ.get("VERIF_KEEP_GEN"):
+            atexit.register(shutil.rmtree, _GEN_RUN, True)
+    return _GEN_RUN
+
+
+_GEN_RUN = None
+
+
 def run_gen(name, text, timeout=600):
-    """Write coq/gen/<name>.v with `text`, compile it; return (ok, stdout, stderr, secs)."""
-    os.makedirs(GEN, exist_ok=True)
-    path = os.path.join(GEN, name + ".v")
+    """Write coq/gen/p<pid>/<name>.v with `text`, compile it; return (ok, stdout, stderr, secs)."""
+    path = os.path.join(gen_dir(), name + ".v")
     with open(path, "w") as f:
         f.write(text)
     return coqc(path, timeout)
